@@ -1,9 +1,9 @@
 CONSTANTS
-  MaxLen = 5
+  MaxLen = 4
   LongLen = 6
   StartPerms = {0, 420, 511, 83, 2541}
   StringPerms = {420}
-  RawKinds = {"file", "link"}
+  RawKinds = {"file", "dir", "link"}
   DoubleGroups <- DoubleGroupsT
   DoublePerms <- DoublePermsT
 SPECIFICATION Spec
